@@ -259,6 +259,11 @@ def part_inprocess(ctx, quick):
         args = [r.choice(TEXTS) for _ in range(k)]
         s = r.choice(TEXTS)
         one(ctx, r.choice(["concat", "concat_ws", "coalesce"]), s, args)
+    # COALESCE: "first non-empty" — a value made of blanks only is not empty; empty values before and after it
+    blanks = ["", " ", "  ", "\t", " \n", "x", "", " a "]
+    for _ in range(40 if quick else 400):
+        vals = [r.choice(blanks) for _ in range(r.range(1, 4))]
+        one(ctx, "coalesce", vals[0], vals[1:], nontrivial=any(v.strip() == "" and v != "" for v in vals))
     for fn in ("bin", "hex", "oct", "abs", "sqrt", "ln", "exp"):
         for s in NUMS:
             one(ctx, fn, s, [], nontrivial=(py_f64(s) is not None))
